@@ -59,22 +59,32 @@ class Wide:
 
     def _tracer(self, tid):
         prefix = self.prefix
+        depth = [0]
+
+        def point(frame, kind):
+            self.count[tid] += 1
+            if self.record:
+                self.files[tid].append((frame.f_code.co_filename[len(prefix):], frame.f_code.co_name, depth[0], kind))
+            if self.count[tid] == self.stop_at[tid]:
+                self.where[tid] = (frame.f_code.co_filename[len(prefix):], frame.f_lineno,
+                                   frame.f_code.co_name, kind)
+                self.state[tid] = 'paused'
+                self.back.release()
+                self.go[tid].acquire()
 
         def local(frame, event, arg):
+            # preemption points: before every source line, and right after a function returned (which separates
+            # the end of a callee - e.g. the release of its lock - from the rest of the caller's line)
             if event == 'line':
-                self.count[tid] += 1
-                if self.record:
-                    self.files[tid].append(frame.f_code.co_filename[len(prefix):])
-                if self.count[tid] == self.stop_at[tid]:
-                    self.where[tid] = (frame.f_code.co_filename[len(prefix):], frame.f_lineno,
-                                       frame.f_code.co_name)
-                    self.state[tid] = 'paused'
-                    self.back.release()
-                    self.go[tid].acquire()
+                point(frame, 'line')
+            elif event == 'return':
+                depth[0] -= 1
+                point(frame, 'return')
             return local
 
         def glob(frame, event, arg):
             if event == 'call' and frame.f_code.co_filename.startswith(prefix):
+                depth[0] += 1
                 return local
             return None
         return glob
